@@ -31,6 +31,15 @@ def run_entry(rep, text, cfg, layout, entry):
             t = pytrs.Tract(text, config=cfg, parse_qq=True)
             t.parse()
             t.parse(commit=False, clean_qq=True, qq_depth=1)
+            t.parse()                                   # a committed parse after a preview
+            t.parse(commit=False)
+            t.parse(qq_depth=2)
+            ok = True
+        elif entry == 'tract_preview_first':
+            t = pytrs.Tract(text, trs='154n97w14', config=cfg)
+            t.parse(commit=False)                       # preview before any committed parse
+            t.parse()
+            pytrs.TractList([t]).parse_tracts()
             ok = True
         else:
             t = pytrs.Tract(text, trs='154n97w14', config=cfg)
@@ -64,7 +73,11 @@ def run(ctx):
         text = descs.any_text(r)
         cfg = descs.valid_config(r)
         layout = r.choice([None, None, None, None] + gen.LAYOUTS + ['copy_all'])
-        entry = r.choice(['desc', 'desc', 'desc_wait', 'tract', 'tract_trs'])
+        entry = r.choice(['desc', 'desc', 'desc_wait', 'tract', 'tract_trs', 'tract_preview_first'])
+        if entry.startswith('tract') and r.chance(1, 3):
+            # tract texts whose parse generates flags of its own (duplicates, descending ranges, acreage stated twice)
+            text = r.choice(['NE/4, NE/4', 'Lots 1, 2, 2', 'Lots 4 - 1', 'Lot 1(40.1), Lot 1(39.9)', 'N/2NE/4, NE/4NE/4', 'Lots 8 - 6, 7, NE/4, N/2']) \
+                + r.choice(['', ', ' + text[:40]])
         run_entry(rep, text, cfg, layout, entry)
         lexfacts.check_text(rep, text, lots=entry.startswith('tract'))
         rep.count()
